@@ -306,8 +306,8 @@ class EventManager(Runnable):
                         # ignore from_walk events where nothing changed
                         return
 
-            self._fill_event_path(event)
             self._notify_on_root_change_event(event)
+            self._fill_event_path(event)
             self.state.update(self.side, event.otype, event.oid, path=event.path, hash=event.hash,
                               exists=event.exists, prior_oid=event.prior_oid, size=event.size, mtime=event.mtime,
                               accurate=event.accurate)
@@ -348,7 +348,7 @@ class EventManager(Runnable):
         if self._root_path and self._root_oid:
             if self._root_oid == event.oid:
                 # none and false events for root ==== check it
-                if not event.accurate and event.exists is not True:
+                if not event.accurate and (event.exists is not True or not event.path):
                     self._make_event_accurate(event)
                 if event.exists is False:
                     raise CloudRootMissingError(f"root was deleted for provider: {self.provider.name}")
